@@ -49,6 +49,35 @@ def live_nodes(stmt):
         todo.extend(ast.iter_child_nodes(node))
 
 
+class NeedChoice(Exception):
+    pass
+
+
+def classify_all(stmts, facts):
+    """-> list of (extra choices, broke, classes) over every valuation of
+    the tests that are not part of the modelled write state"""
+    results = []
+    todo = [dict(facts)]
+    while todo:
+        cur = todo.pop()
+        out = []
+        try:
+            broke = classify_write(stmts, cur, {}, out)
+        except NeedChoice as need:
+            key = need.args[0]
+            if len([k for k in cur if k.startswith("?")]) > 6:
+                raise AnalysisError("infer_sharing_attributes: too many "
+                                    "unmodelled tests")
+            for val in (False, True):
+                nxt = dict(cur)
+                nxt[key] = val
+                todo.append(nxt)
+            continue
+        extra = {k[1:]: v for k, v in cur.items() if k.startswith("?")}
+        results.append((extra, broke, out))
+    return results
+
+
 def classify_write(stmts, facts, env, out):
     """Abstract execution of the body of `if access is a WRITE:` in
     infer_sharing_attributes. -> True when a `break` was executed."""
@@ -67,9 +96,12 @@ def classify_write(stmts, facts, env, out):
             elif txt == "last_read_position < loop_pos":
                 val = facts["read_before"] == "before-loop"
             else:
-                raise AnalysisError(f"infer_sharing_attributes tests "
-                                    f"'{txt}', which the rule does not "
-                                    f"model")
+                # a test outside the modelled write state: it can hold or
+                # not for some symbol, both outcomes are explored
+                key = "?" + txt
+                if key not in facts:
+                    raise NeedChoice(key)
+                val = facts[key]
             if classify_write(stmt.body if val != neg else stmt.orelse,
                               facts, env, out):
                 return True
@@ -111,9 +143,7 @@ def check_inference_table(idx, run, cls):
             for conditional in (False, True):
                 facts = {"in_loop": in_loop, "read_before": read_before,
                          "conditional": conditional}
-                out = []
-                broke = classify_write(wr[0].body, facts, {}, out)
-                got = sorted(roles.get(o, o) for o in out)
+                runs = classify_all(wr[0].body, facts)
                 if not in_loop:
                     want = []
                 elif read_before == "before-loop":
@@ -125,15 +155,22 @@ def check_inference_table(idx, run, cls):
                 else:
                     want = ["private"]
                 n += 1
+                bad = [(extra, sorted(roles.get(o, o) for o in out), broke)
+                       for extra, broke, out in runs
+                       if sorted(roles.get(o, o) for o in out) != want
+                       or not broke]
+                got = bad[0][1] if bad else want
+                broke = not bad or bad[0][2]
+                extra_txt = f" when {bad[0][0]}" if bad and bad[0][0] else ""
                 run.check(
-                    "C09.R3", got == want and broke, cons,
+                    "C09.R3", not bad, cons,
                     f"first write: in_loop={in_loop} "
                     f"read_before={read_before} conditional={conditional}",
                     f"a scalar whose first write is "
                     f"{'inside' if in_loop else 'outside'} a loop, read "
                     f"before that write: {read_before}, conditional "
                     f"write: {conditional} is classified {got or 'shared'}"
-                    f" (decision made: {broke}); it must be "
+                    f"{extra_txt} (decision made: {broke}); it must be "
                     f"{want or 'shared'}: a value that flows into the "
                     f"iteration needs firstprivate, one that flows between "
                     f"iterations needs synchronisation",
@@ -185,6 +222,8 @@ def check_written_once(idx, run, cls):
 
 def check(idx, run):
     run.explanation = __doc__
+    from rules.common_parallel import check_fresh_unknown
+    check_fresh_unknown(idx, run, "C09.R5")
     check_generic_validate(idx, run, "C09.R1")
     setters = check_subclass_chains(idx, run, "C09.R1")
     run.extra["validates_that_force"] = sorted(setters)
